@@ -148,7 +148,7 @@ def _one(ctx, impl, name, spec, opts, s2, o2, perm, fam):
         bad = [(k, why) for (k, why) in bad if not (k.startswith('labels') and margin_ok(a['ok'], pb, k))]
     if bad:
         ctx.violation(name, 'result on the renumbered graph is not the renumbered result: %s' % bad[0][0], case=case, entry=name,
-                      kind='not_equivariant', mismatches=bad[:4], base={k: a['ok'][k] for k, _ in bad[:2]},
+                      kind='not_equivariant', mismatches=bad[:4], base={k: a['ok'].get(k) for k, _ in bad[:2]},
                       observed={k: b['ok'].get(k) for k, _ in bad[:2]}, solver=name.split('[')[1][:-1] if '[' in name else None)
     if len(ctx.samples) < 6 and fam.startswith('exh') is False:
         ctx.sample(dict(name=name, family=fam, m=spec, perm=perm))
